@@ -177,14 +177,14 @@ def configs(d, rng):
 
     cvd = ("float64", "uint8", "float32", "uint16")
     reg("translation", translation([[1, 0, 1], [0, 1, 2]]), dtypes=cvd, min_extent=2)
-    reg("translation(neutral)", translation([[1, 0, 0], [0, 1, 0]]), dtypes=cvd, neutral=True, min_extent=2)
-    reg("translation(inactive)", lambda info: d.TranslationCorrection(None), dtypes=cvd, neutral=True, min_extent=2)
+    reg("translation(neutral)", translation([[1, 0, 0], [0, 1, 0]]), dtypes=cvd, neutral=True, min_extent=1)
+    reg("translation(inactive)", lambda info: d.TranslationCorrection(None), dtypes=cvd, neutral=True, min_extent=1)
     # --- curvature
     zero_b = {"horizontal_bulge": 0.0, "horizontal_center_offset": 0, "vertical_bulge": 0.0, "vertical_center_offset": 0}
     zero_s = {"horizontal_stretch": 0.0, "horizontal_center_offset": 0, "vertical_stretch": 0.0, "vertical_center_offset": 0}
     reg("curvature(neutral)", lambda info: d.CurvatureCorrection(config={"bulge": dict(zero_b), "stretch": dict(zero_s)}),
-        dtypes=cvd, neutral=True, min_extent=2)
-    reg("curvature(empty config)", lambda info: d.CurvatureCorrection(config={}), dtypes=cvd, neutral=True, min_extent=2)
+        dtypes=cvd, neutral=True, min_extent=1)
+    reg("curvature(empty config)", lambda info: d.CurvatureCorrection(config={}), dtypes=cvd, neutral=True, min_extent=1)
     reg("curvature", lambda info: d.CurvatureCorrection(config={"bulge": dict(zero_b, horizontal_bulge=1e-3, vertical_bulge=-5e-4),
                                                                   "stretch": dict(zero_s, horizontal_stretch=1e-3)}),
         dtypes=cvd, min_extent=3)
